@@ -1,6 +1,6 @@
 #!/usr/bin/env python3
-"""Keep the confirmed round-3 seeded defects under /verif/seeded/<prop>r3-m<i>/ (patch.diff, demo.py, meta.json).
-usage: seed_keep_r3.py <seed root> <matrix.json written by refactor_matrix.py (current rules, in memory)>
+"""Keep the confirmed seeded defects of a round under /verif/seeded/<prop><tag>-m<i>/ (patch.diff, demo.py, meta.json).
+usage: seed_keep_r3.py <seed root> <matrix.json written by refactor_matrix.py (current rules, in memory)> [tag, default r3]
 `first try` = the result of tools/seed_check.py (scratch worktree) BEFORE any rule was changed because of the seed (check.json)."""
 import json
 import os
@@ -8,6 +8,7 @@ import shutil
 import sys
 
 root, matrix = sys.argv[1], json.load(open(sys.argv[2]))
+TAG = sys.argv[3] if len(sys.argv) > 3 else "r3"
 now = {}
 for name, prop, st, msg in matrix:
     now.setdefault(name, {})[prop] = (st, msg)
@@ -28,7 +29,7 @@ for p in sorted(os.listdir(root)):
             continue
         mt = json.load(open(f"{d}/meta.json"))
         prop = mt.get("property")
-        sid = f"{prop}r3-{'p' if 'pyx' in p else 'm'}{m[1:]}"
+        sid = f"{prop}{TAG}-{'p' if 'pyx' in p else 'm'}{m[1:]}"
         first = json.load(open(f"{d}/check.json")) if os.path.exists(f"{d}/check.json") else {}
         cur = now.get(f"{p}/{m}", {})
         dst = f"/verif/seeded/{sid}"
@@ -39,7 +40,7 @@ for p in sorted(os.listdir(root)):
         undecided = {q: {"exit": 2, "first_report": msg} for q, (st, msg) in cur.items() if st == "undecided"}
         meta = {
             "id": sid, "property": prop, "summary": mt.get("summary"), "needs_to_manifest": mt.get("needs"), "files": mt.get("files"),
-            "origin": "round 3: written by a fresh sub-agent that saw only the property text and a scratch worktree (nothing from /verif)"
+            "origin": f"round {TAG[1:]}: written by a fresh sub-agent that saw only the property text and a scratch worktree (nothing from /verif)"
                       + ("; the compiled split finder cannot be rebuilt here, so the defect in the .pyx is demonstrated on the line-preserving pure-Python "
                          "transliteration of the .pyx that replaces the extension (tools/seed_verify.py)" if "pyx" in p else ""),
             "confirmed_by_me": {"how": "tools/seed_verify.py in a scratch worktree of /repo HEAD: demo.py exit 0 on the clean tree, non-zero with the patch; "
